@@ -306,6 +306,9 @@ def step (sp : Spec) (w : World) : Event → World
           -- RunExistingTask: _run_existing refuses a succeeded task with a MistralError
           -- (not a MistralException: it escapes run_task and the transaction rolls back)
           if r.state == .SUCCESS then w
+          -- … ignores the request (it is not a rerun: `resume` queued it for a task that was still
+          -- IDLE) if the task has completed in the meantime: the original start request has run it
+          else if isCompleted r.state then w
           -- … and ignores the request if the task is already running its action
           else if r.state == .RUNNING && hasLiveAction w t then w
           else { w with tasks := setTask w.tasks { r with state := .RUNNING, processed := false },
